@@ -192,9 +192,10 @@ def body_runs(eng, tier):
             def pre_fn(ex, skind=skind):
                 pre = [ex.ivar("disc(source)", 0, 1) == (0 if skind == "struct" else 1)]
                 if skind == "struct":
-                    pre.append(ex.ivar("len(source.<Struct>.1)", 0, ex.slice_bound) <= 1)
+                    # thorough: two fields with all 40 atoms free (a second variant multiplies the paths beyond the budget: measured 30 000 paths / 300 s)
+                    pre.append(ex.ivar("len(source.<Struct>.1)", 0, ex.slice_bound) <= (2 if tier == "thorough" else 1))
                 else:
-                    pre.append(ex.ivar("len(source.<Enum>.1)", 0, ex.slice_bound) <= (2 if tier == "thorough" else 1))
+                    pre.append(ex.ivar("len(source.<Enum>.1)", 0, ex.slice_bound) <= 1)
                     for v in range(2):
                         pre.append(ex.ivar("len(source.<Enum>.1.[%d].fields)" % v, 0, ex.slice_bound) <= 1)
                 return pre
@@ -706,7 +707,7 @@ def run(tier):
         rule="a case is (panic site found in the MIR of the current tree, run): the site - an `unreachable!()`, an `assert` (index bounds), a call of unwrap / expect / Index - must be "
              "unreachable on every feasible path, either for all argument values of its function or in every calling context; each `can this site panic here` question is one z3 query; "
              "non-trivial = a path with at least one decision on a symbolic atom",
-        bounds="<=2 variants x <=2 fields (Default on enums: <=2, thorough 3 variants; Deref: 0..3, thorough 4 fields); one field with all 20 comparison atoms free for the body builders; "
+        bounds="<=2 variants x <=2 fields (Default on enums: <=2, thorough 3 variants; Deref: 0..3, thorough 4 fields); one field (thorough: two fields of a struct) with all 20 comparison atoms free for the body builders; "
                "inline depth<=14, <=14 visits per block, 40 s per standalone run",
         outside="syn's / structmeta's parsers and every partial call that depends on token text (parse_quote!, Ident::new, format_ident!, TokenStream::from_str; listed in the evidence), "
                 "termination, well-formedness of printed tokens and determinism: sampled natively only; sites inside code generated by #[derive(StructMeta)] / #[derive(Parse)]",
